@@ -36,8 +36,69 @@ func init() {
 					forOK = false
 				}
 			}
-			c.guard("RW.SCOPEAGREE", func() { r.ruleScopeAgree(forOK) })
+			c.guard("RW.SCOPEAGREE", func() { r.ruleScopeAgree(forOK, "agree") })
 			c.guard("RW.TMPL.FOR", r.ruleTmplFor)
+		},
+	})
+}
+
+func init() {
+	register(propSpec{
+		ID: "C03",
+		Explanation: "Scoping across suspension is decided as obligations on the syntax the rewriter constructs (templates extracted by abstract interpretation, user syntax as holes): S1 the continuation after a yield is the body of the thunk passed to Bind and is pushed into the enclosing block (later statements stay lexically nested under earlier declarations); S2 statements are only moved to the second half of a Combine after a statement with its own scope (combine table); S3 ':=' initialisers of for/switch/type-switch are hoisted into a fresh block, only inside generators; if-initialisers are never moved; S4 a ':=' range loop keeps its original body as one nested block after the generated binding, with the loop's own token; S5 a yielding for-post is lowered into a thunk of its own; S6 iterator temporaries come from gensym. Go's closure semantics (capture by reference) is trusted.",
+		Trusted: []string{"Go closures capture variables by reference", "go/ssa construction", "go/ast grammar facts"},
+		Run: func(c *Ctx) {
+			r := newRwRT(c)
+			c.guard("RW.TMPL.BIND", r.ruleTmplBind)
+			c.guard("RW.TMPL.COMBINE", r.ruleTmplCombine)
+			c.guard("RW.KINDTAB", r.ruleKindTab)
+			c.guard("RW.TMPL.HOIST", r.rulePass0)
+			c.guard("RW.TMPL.RANGE", r.ruleTmplRange)
+			c.guard("RW.TMPL.CONSUMER", r.ruleTmplConsumer)
+			c.guard("RW.TMPL.YIELDFUNC", r.ruleTmplYieldFunc)
+			c.guard("RW.SCOPE.INIT", r.ruleScopeInit)
+			c.guard("RW.TMPL.FORPOST", func() { r.ruleScopeAgree(true, "forpost") })
+		},
+	})
+}
+
+func init() {
+	register(propSpec{
+		ID: "C04",
+		Explanation: "Range loops inside generators are decided as (a) the template of the lowered loop for every variable form (key/value omitted, blank, named) x ':=' / '=': `it := seq.NewXIter(x)` inserted before the loop (operand evaluated once, before the first iteration), cond-only `for it.MoveNext()`, key from .Key and value from .Val with the loop's own token, original body nested as one block for ':=', iterator variable from gensym; (b) the dispatch table operand kind -> constructor, cross-checked with the constructor's parameter kind in package seq and with Go's range table; the traversal descends into nested closures; (c) the iterators themselves (C10's inductive rules, re-established in this run). Element-level equality is C10.",
+		Trusted: []string{"reflect / unicode/utf8 contracts", "go/ssa construction", "go/types kinds"},
+		Run: func(c *Ctx) {
+			r := newRwRT(c)
+			c.guard("RW.TMPL.RANGE", r.ruleTmplRange)
+			c.guard("RW.RANGEDISPATCH", r.ruleRangeDispatch)
+			s := newSeqRT(c)
+			s.ruleIters()
+		},
+	})
+	register(propSpec{
+		ID: "C05",
+		Explanation: "YieldFrom is decided as templates plus pass ordering: rewriteYieldFrom turns YieldFrom(x) into `for v := range x { Yield(v) }` for every form of x (identifier, call, selector, index) with x occurring exactly once as the range operand and a body of exactly one Yield of the loop variable; the consumer lowering evaluates the operand once in the init statement, advances once per iteration in the condition and reads Current once per iteration (no prefetch); in rewriteFile the YieldFrom pass precedes the range-over-iterator pass which precedes the generator pass; following statements run only after the delegate reported exhaustion by the runtime tables SEQ.FOR/SEQ.COMBINE (re-established in this run).",
+		Trusted: []string{"Go semantics of closures", "go/ssa construction"},
+		Run: func(c *Ctx) {
+			r := newRwRT(c)
+			c.guard("RW.TMPL.YIELDFROM", r.ruleTmplYieldFrom)
+			c.guard("RW.TMPL.CONSUMER", r.ruleTmplConsumer)
+			c.guard("RW.FILEPASSES", r.ruleFilePasses)
+			s := newSeqRT(c)
+			c.guard("SEQ.FOR", s.ruleFor)
+			c.guard("SEQ.COMBINE", s.ruleCombine)
+			c.guard("SEQ.SUSPEND", s.ruleSuspend)
+		},
+	})
+	register(propSpec{
+		ID: "C06",
+		Explanation: "Consumer-side loops are decided as the template of rewriteForRange for every operand form and both ':=' and '=': operand exactly once (in the init statement), one MoveNext per iteration in the condition and nothing else (no prefetch: break/continue/return pull nothing further), one Current bound with the loop's own token. The iterator type replacement is decided as: an index expression is replaced iff the iterator-type predicate holds, by seq.Iterator[<same index>] under the file's import name, and the generator's own result type is built the same way; the passes run in the order the lowering relies on. Completeness of the replacement in every syntactic position is a build-time matter and not decided.",
+		Trusted: []string{"go/ssa construction", "astutil.Apply visits every IndexExpr"},
+		Run: func(c *Ctx) {
+			r := newRwRT(c)
+			c.guard("RW.TMPL.CONSUMER", r.ruleTmplConsumer)
+			c.guard("RW.TMPL.ITERTYPE", r.ruleIterType)
+			c.guard("RW.FILEPASSES", r.ruleFilePasses)
 		},
 	})
 }
